@@ -16,7 +16,7 @@ ExplainDerive(e) ==
                   <<e.kamf = a.kamf, "K_AMF differs: expected " \o Str(a.kamf) \o " got " \o Str(e.kamf)>>,
                   <<e.kenc = a.kenc, "K_NASenc differs: expected " \o Str(a.kenc) \o " got " \o Str(e.kenc)>>,
                   <<e.kint = a.kint, "K_NASint differs: expected " \o Str(a.kint) \o " got " \o Str(e.kint)>> >>)
-Explain(e) == IF e.ev = "Derive" THEN ExplainDerive(e) ELSE No("no action of the specification matches this event")
+Explain(e) == IF e.ev = "Derive" THEN ExplainDerive(e) ELSE IF e.ev = "Held" THEN HeldVerdict(e) ELSE No("no action of the specification matches this event")
 
 Init == l = 1 /\ bad = 0
 Next == /\ l <= Len(Trace)
